@@ -35,6 +35,17 @@ TRUSTED = c01.TRUSTED + ["translator/inventory.py (AST scan of fs-mutating calls
 PY = "/venv/bin/python"
 
 
+def other_fs_tmp():
+    """a fresh directory on a file system other than the scratch area's (None when there is none)"""
+    import tempfile
+    try:
+        if os.path.isdir("/dev/shm") and os.stat("/dev/shm").st_dev != os.stat(tempfile.gettempdir()).st_dev:
+            return tempfile.mkdtemp(prefix="kjv-otherfs-", dir="/dev/shm")
+    except OSError:
+        pass
+    return None
+
+
 def runner(kind, inp, out, fault=None, count=False, hashseed=0):
     with scratch() as cd:
         cfg = {"kind": kind, "inp": inp, "outdir": out, "cwd": cd, "walk_seed": None, "clock": None, "fault": fault, "count_ops": count}
@@ -42,7 +53,14 @@ def runner(kind, inp, out, fault=None, count=False, hashseed=0):
         json.dump(cfg, open(cf, "w"))
         env = dict(os.environ)
         env.update({"PYTHONHASHSEED": str(hashseed), "PYTHONPATH": VERIF})
-        p = subprocess.run([PY, "-W", "ignore", "-m", "harness.c06_runner", cf], cwd=VERIF, env=env, stdout=subprocess.PIPE, stderr=subprocess.PIPE, timeout=300)
+        other = other_fs_tmp()
+        if other:
+            env["TMPDIR"] = other     # the process's temporary directory lies on another file system than the output directory
+        try:
+            p = subprocess.run([PY, "-W", "ignore", "-m", "harness.c06_runner", cf], cwd=VERIF, env=env, stdout=subprocess.PIPE, stderr=subprocess.PIPE, timeout=300)
+        finally:
+            if other:
+                shutil.rmtree(other, ignore_errors=True)
     for line in p.stdout.decode("utf-8", "replace").split("\n"):
         if line.startswith("RESULT "):
             return json.loads(line[7:]), p.returncode
